@@ -1,8 +1,9 @@
 import AvoVerif.Drv.Common
 import AvoVerif.Drv.C02
 import AvoVerif.Model.Covers
+import AvoVerif.Model.BuildRW
 namespace Avo.Drv.C04
-open Avo.Drv Avo.Reg Avo.MaskSet Avo.RW
+open Avo.Drv Avo.Reg Avo.MaskSet Avo.RW Avo.BuildRW
 
 def lanesStr (m : Nat) : String :=
   ",".intercalate (((List.range 16).filter (fun i => m.testBit i)).map toString)
@@ -37,6 +38,44 @@ def handle : Handler
     | _ => none
   | _ => none
 
-def handlers : List (String × Handler) := [("accept-rw", handle), ("usedef", C02.handle)]
+/-- `accept-exec <id> <opcode.suffixes> <types> <operands> <isas> <outcome>`: an instruction avo built, the
+assembler encoded and whose ISA extensions the host reports must execute (`executed`); a fault
+(`SIGILL`, `SIGSEGV`, …) means the processor does something no declared read/write set covers. -/
+def handleExec : Handler
+  | ["accept-exec", _id, _opc, _types, _ops, _isas, outcome] =>
+    some (if executes outcome then "ok" else "bad-fault " ++ outcome)
+  | _ => none
+
+/-- `accept-build <id> <opcode.suffixes> <types> <operands> <outcome>`: building the instruction, running the
+compile pipeline on it and extracting its input/output registers must terminate normally (`built`). -/
+def handleBuild : Handler
+  | ["accept-build", _id, _opc, _types, _ops, outcome] =>
+    some (if builds outcome then "ok" else "bad-" ++ outcome)
+  | _ => none
+
+def specTok : List String → Option (Spec × List String)
+  | a :: i :: ts => do let ac ← a.toNat?; some (⟨ac, i == "1"⟩, ts)
+  | _ => none
+
+/-- `build-rw <cancelling> <n> (<action> <implicit>)* <n> <implicit operand>* <n> <explicit operand>*` (operands
+in the encoding of `usedef`, action field ignored): the declared read and written registers computed by the
+MODEL OF THE ALGORITHM (`Model/BuildRW`: operand loop of form.build, InputRegisters, OutputRegisters,
+ZeroExtend32BitOutputs), compared exactly with what the real code reports. -/
+def handleBuildRW : Handler
+  | "build-rw" :: c :: rest => do
+    let (specs, rest) ← listOf specTok rest
+    let (impls, rest) ← listOf C02.opndTok rest
+    let (ops, _) ← listOf C02.opndTok rest
+    match assign specs (impls.map (·.op)) (ops.map (·.op)) with
+    | none => some "panic-build"
+    | some a =>
+      match declaredReads (c == "1") a with
+      | none => some "panic-input-registers"
+      | some rs => some (C02.msStr (C02.regSet rs) ++ " " ++ C02.msStr (C02.regSet (declaredWrites a)))
+  | _ => none
+
+def handlers : List (String × Handler) :=
+  [("accept-rw", handle), ("accept-exec", handleExec), ("accept-build", handleBuild), ("build-rw", handleBuildRW),
+   ("usedef", C02.handle)]
 
 end Avo.Drv.C04
